@@ -6,6 +6,7 @@ from flow import ENUMS
 import tables
 
 RUN = 'bidir::run_bisync'
+FINGERPRINT = 'meta::fingerprint_path'
 APPLY = 'bidir::apply'
 COPY = 'bidir::copy_atomic'
 
@@ -320,3 +321,165 @@ class Bisync:
     def bisync_graph(self):
         cg = callgraph_of(self.F)
         return cg, cg.reach([RUN])
+
+
+# ------------------------------------------------------------------------------------------------ content scans / time taint
+def _time_functions(F, cg):
+    """crate functions from which a time reader is reachable"""
+    out = set()
+    for p in F.bodies:
+        top = p.split('::{')[0]
+        if top in out:
+            continue
+        if F.body(top) is not None and cg.reaches_callee(top, lambda c: c in tables.TIME_READERS):
+            out.add(top)
+    return out
+
+
+_returns_time_memo = {}
+
+
+def fn_returns_time(F, fn, tf, depth=0):
+    """the value a crate function returns may depend on a file time or the clock: a returned value (or something stored into the
+    returned collection) is computed from one, or which value is returned is decided by a test on one (control dependence)"""
+    key = (id(F), fn)
+    if key in _returns_time_memo:
+        return _returns_time_memo[key]
+    if fn.split('::{')[0] not in tf or depth > 5:
+        return False
+    _returns_time_memo[key] = False          # cycles: assume clean while computing
+    b = F.body(fn)
+    res = False
+    if b is not None:
+        work = b
+        for nb in F.nested(fn):
+            if nb.kind == 'coroutine' and nb.parent == b.path and len(b.blocks) <= 3:
+                work = nb
+        fl = flow_of(work)
+        cfg = fl.cfg
+        ret_blocks = set()
+        for (bb, idx, kind, data, dproj) in fl.defs.get(0, []):
+            ret_blocks.add(bb)
+            ops = data.get('args', []) if kind == 'call' else data.get('ops', [])
+            if kind == 'call' and (str(callee(data) or '') in tables.TIME_READERS):
+                res = True
+            for a in ops:
+                if time_tainted(F, fl, a, tf, depth + 1):
+                    res = True
+        for o in fl.origins(0, mut_calls=True):
+            if o.kind == 'mutcall' and o.bb is not None:
+                ret_blocks.add(o.bb)
+                for a in work.blocks[o.bb]['term'].get('args', [])[1:]:
+                    if time_tainted(F, fl, a, tf, depth + 1):
+                        res = True
+        if not res:
+            for sb in cfg.reachable():
+                t = work.blocks[sb]['term']
+                if t['k'] != 'switch' or t['on']['k'] == 'const' or not time_tainted(F, fl, t['on'], tf, depth + 1):
+                    continue
+                succ = [x for x, _ in cfg.succ[sb] if work.blocks[x]['term']['k'] != 'unreachable']
+                some = set().union(*[cfg.reach(x) for x in succ]) if succ else set()
+                every = _both_sides(cfg, sb)
+                if (some - every) & ret_blocks:
+                    res = True
+    _returns_time_memo[key] = res
+    return res
+
+
+def time_tainted(F, fl, op, tf, depth=0, seen=None):
+    """the operand may carry a value computed from a file time or the clock: a time reader's result, the result of a crate
+    function whose return value depends on one, or the result of a crate function called with such a value"""
+    seen = seen if seen is not None else set()
+    if depth > 8 or op['k'] == 'const':
+        return False
+    b = fl.body
+    for o in fl.origins(op):
+        k = (o.kind, str(o.key), o.bb)
+        if k in seen:
+            continue
+        seen.add(k)
+        if o.kind in ('call', 'mutcall'):
+            c = str(o.key)
+            if c in tables.TIME_READERS:
+                return True
+            if F.body(c) is not None:
+                if fn_returns_time(F, c, tf, depth + 1):
+                    return True
+                if o.bb is not None:
+                    for a in b.blocks[o.bb]['term'].get('args', []):
+                        if time_tainted(F, fl, a, tf, depth + 1, seen):
+                            return True
+        elif o.kind == 'agg' and F.body(str(o.key)) is not None and o.bb is not None:
+            # a closure: what it captured
+            for st in b.blocks[o.bb]['stmts']:
+                rv = st['rv']
+                if rv['k'] == 'agg' and norm(rv.get('def') or '') == str(o.key):
+                    for a in rv['ops']:
+                        if time_tainted(F, fl, a, tf, depth + 1, seen):
+                            return True
+    return False
+
+
+def scan_is_content(ctx, F, rid):
+    """What reconcile compares are content fingerprints: in the function that builds the scan map handed to reconcile, every
+    value inserted is the result of fingerprint_path(..) of the walked file - never a remembered fingerprint - and whether a
+    walked file is inserted does not depend on a file time or the clock."""
+    run = F.body(RUN)
+    rfl = flow_of(run)
+    cg = callgraph_of(F)
+    tf = _time_functions(F, cg)
+    n = 0
+    for cb, ct in rfl.calls_to('reconcile::reconcile'):
+        for ai in (0, 1):
+            srcs = {str(o.key) for o in rfl.origins(ct['args'][ai]) if o.kind == 'call' and F.body(str(o.key)) is not None}
+            work, seen = list(srcs), set()
+            while work:
+                fn = work.pop()
+                if fn in seen:
+                    continue
+                seen.add(fn)
+                sb = F.body(fn)
+                if sb is None:
+                    continue
+                sfl = flow_of(sb)
+                ret_keys = {(o.kind, str(o.key), o.bb) for o in sfl.origins(0) if o.kind != 'comb'}
+                inserts = [(ib, it) for ib, it in sfl.calls(lambda c: c.endswith('BTreeMap::<K, V, A>::insert') or c.endswith('BTreeMap::<K, V>::insert'))
+                           if {(o.kind, str(o.key), o.bb) for o in sfl.origins(it['args'][0]) if o.kind != 'comb'} & ret_keys]
+                if not inserts:
+                    # a wrapper: follow the crate calls its result comes from
+                    work += [str(o.key) for o in sfl.origins(0) if o.kind == 'call' and F.body(str(o.key)) is not None]
+                    continue
+                for ib, it in inserts:
+                    n += 1
+                    vo = [o for o in sfl.origins(it['args'][2]) if o.kind not in ('comb',) and not (o.kind == 'agg' and str(o.key).endswith(('Option::Some', 'Result::Ok')))]
+                    pure = bool(vo) and all(o.kind == 'call' and str(o.key) == FINGERPRINT for o in vo)
+                    ctx.check(pure, rid, '%s:scan-value-is-the-content-fingerprint#%d' % (fn.split('::')[-1], ai + 1), 'every inserted value is fingerprint_path(<walked file>)',
+                              '%s fills the scan that reconcile compares with a value that is not the fingerprint of the bytes on disk now (%s): a rewrite that the '
+                              'shortcut does not notice makes a changed side look unchanged, and its version is overwritten or deleted' % (
+                                  fn.split('::')[-1], sorted({'%s:%s' % (o.kind, str(o.key).split('::')[-1]) for o in vo if not (o.kind == 'call' and str(o.key) == FINGERPRINT)})[:3]),
+                              term_loc(sb, ib))
+                    # inserted or not: no time in the conditions that lead here
+                    for swb, swt in [(x, sb.blocks[x]['term']) for x in sfl.cfg.reachable() if sb.blocks[x]['term']['k'] == 'switch' and sb.blocks[x]['term']['on']['k'] != 'const']:
+                        if not sfl.cfg.dominates(swb, ib) or ib in _both_sides(sfl.cfg, swb):
+                            continue
+                        if time_tainted(F, sfl, swt['on'], tf):
+                            ctx.bad(rid, '%s:scan-entry-depends-on-time' % fn.split('::')[-1],
+                                    'whether %s records a walked file depends on a file time or the clock' % fn.split('::')[-1], term_loc(sb, swb))
+    if n == 0:
+        ctx.undecided(rid, 'the function that fills the scans handed to reconcile was not found (no map insert behind the arguments of reconcile)')
+
+
+def _both_sides(cfg, swb):
+    """blocks reachable from every successor of the switch (what lies behind the join)"""
+    blocks = cfg.body.blocks if hasattr(cfg, 'body') else None
+    succ = [t for t, _ in cfg.succ[swb]]
+    if blocks is not None:
+        live = [t for t in succ if blocks[t]['term']['k'] != 'unreachable']
+        succ = live or succ
+    if not succ:
+        return set()
+    r = None
+    for s_ in succ:
+        rs = cfg.reach(s_)
+        r = rs if r is None else (r & rs)
+    return r or set()
